@@ -392,7 +392,7 @@ class SimClock(object):
         except (ValueError, OverflowError):
             self.t = self.start
         if self.t.year < 1000:          # strftime('%Y') is not zero-padded below 1000; out of scope
-            self.t = self.t.replace(year=1000)
+            self.t = self.t.replace(year=1000, day=min(self.t.day, 28))
         self.jumps += 1
         self.covered += abs((self.t - t0).total_seconds())
         self.ctx.faults['clock_' + kind] += 1
